@@ -57,6 +57,12 @@ def run(ctx) -> None:
     check_rule(ctx)
     check_zero(ctx)
     check_checked(ctx)
+    # a reaction takes over metabolite *objects*: one that belongs to another model must be copied, or that model's
+    # metabolite ends up listing a reaction that is not in it (shared with C12)
+    from . import c12
+
+    ctx.rule("C12.detach", "finite domain: add_metabolites copies a metabolite iff it belongs to a model that is not the reaction's (shared with C12)", floor=1)
+    c12.check_foreign_copy_guard(ctx)
     ctx.rule("C02.readonly", "T8: an operand that is documented as a source (the right-hand model of merge) is only read: nothing reachable from it is written or adopted", floor=1)
     check_readonly(ctx)
 
@@ -724,3 +730,31 @@ def check_checked(ctx) -> None:
                 ctx.bad("C02.checked", fn, st, f"{e.cell} is extended through {e.note}, which does not check identifier uniqueness")
             else:
                 ctx.ok("C02.checked", fn, st, f"{e.cell} extended through the checking API ({e.note or 'operator'})", nontrivial=False)
+            # a collection whose elements are attached (pointers, back-references) before it is inserted has to be
+            # unique already when the attaching starts: the checking insertion would otherwise raise for a duplicate
+            # inside the collection *after* its elements have been wired into the model
+            v = e.value
+            if isinstance(v, ast.Name) and e.op == "add":
+                loops = [lp for lp in walk_local(fn.node) if isinstance(lp, ast.For) and isinstance(lp.iter, ast.Name) and lp.iter.id == v.id and lp.lineno < st.lineno]
+                # loops that change *model state* while they attach the elements (objects that are not part of the model
+                # yet are not model state: a stale pointer on them after a failed call is the caller's business)
+                def _touches_model(lp) -> bool:
+                    inside = {id(x) for x in ast.walk(lp)}
+                    for e2 in eff.own_effects(fn):
+                        if id(e2.node) not in inside or not any(r == SELF for r in e2.roots):
+                            continue
+                        if e2.kind == "RAW" and e2.cell not in ("Reaction._model", "Species._model", "Object._model"):
+                            return True
+                        if e2.kind == "CALL" and e2.chain and any(x.kind in ("RAW", "REV") for x in eff.summary(e2.chain[0][0])):
+                            return True
+                    return False
+
+                wires = [lp for lp in loops if _touches_model(lp)]
+                if wires:
+                    ts = ctx.inf.type_of(fn, v)
+                    if any(t[0] == "DictList" for t in ts):
+                        ctx.ok("C02.checked", fn, wires[0], f"`{v.id}` is a DictList (unique identifiers) before its elements are attached")
+                    elif ts:
+                        ctx.bad("C02.checked", fn, wires[0], f"the elements of `{v.id}` are attached to the model (model pointer, back-references) before `{v.id}` is inserted through the checking API, and `{v.id}` is a plain {sorted(t[0] for t in ts)[0]}: two elements with the same identifier are only rejected at the insertion, after both have been wired in - the operation raises and leaves the model changed")
+                    else:
+                        ctx.note(f"C02.checked: the type of `{v.id}` in {fn.short} is not known; uniqueness before attaching not read")
